@@ -249,9 +249,21 @@ def run_correspondence(mod, cases, obss, shard=300):
             + f"Eval vm_compute in (mismatches {mod.COQ_CHECK} cases).\n"
         )
         files.append((p, idxs))
+
+    def run_file(p):
+        rc, out = _coqc_file(p)
+        if rc != 0 and "Cannot infer" in out:
+            # every case of the shard has an empty list at some polymorphic position: give Coq the expected type by
+            # passing the literal to the check directly
+            txt = p.read_text().replace("Definition cases := [", f"Eval vm_compute in (mismatches {mod.COQ_CHECK} [", 1)
+            txt = txt.replace(f"\n].\nEval vm_compute in (mismatches {mod.COQ_CHECK} cases).\n", "\n]).\n", 1)
+            p.write_text(txt)
+            rc, out = _coqc_file(p)
+        return rc, out
+
     mism, errors = [], []
     with cf.ThreadPoolExecutor(max_workers=NPROC) as ex:
-        futs = {ex.submit(_coqc_file, p): (p, idxs) for p, idxs in files}
+        futs = {ex.submit(run_file, p): (p, idxs) for p, idxs in files}
         for fu in cf.as_completed(futs):
             p, idxs = futs[fu]
             rc, out = fu.result()
